@@ -173,17 +173,42 @@ Fixpoint lines_for_tab_go (cur : Z) (lines : list bytes) (inc_tab : option Z) : 
 Definition lines_for_tab (lines : list bytes) (inc_tab : option Z) : list bytes :=
   lines_for_tab_go 0 lines inc_tab.
 
+(* `for line in fh` on a binary file: split after every "\n", terminators kept *)
+Fixpoint file_lines (s : bytes) : list bytes :=
+  match s with
+  | [] => []
+  | c :: r =>
+    if c =? 10 then [10] :: file_lines r
+    else match file_lines r with
+         | h :: t => (c :: h) :: t
+         | [] => [[c]]
+         end
+  end.
+
+Fixpoint ends_with_nl (s : bytes) : bool :=
+  match s with
+  | [] => false
+  | [c] => c =? 10
+  | _ :: r => ends_with_nl r
+  end.
+
+(* what is yielded for an included line, by the shape the generator found at the two yield sites
+   (include_newline_kind): 0 = `yield line`; 1 = `yield line if line.endswith(b'\n') else line + b'\n'` *)
+Definition yielded (nl_kind : Z) (l : bytes) : bytes :=
+  if nl_kind =? 0 then l else if ends_with_nl l then l else l ++ [10].
+
 Section Splice.
+Variable nl_kind : Z.
 Variable resolve : bytes -> result bytes.            (* inc_path+ext -> full path (part 1) *)
-Variable target : bytes -> option (list bytes).      (* full path -> lines the target yields *)
+Variable target : bytes -> bytes -> option (list bytes).   (* full path, extension -> lines the target yields *)
 
 Definition is_cart_ext (ext : bytes) : bool := zlist_eqb ext ext_p8 || zlist_eqb ext ext_p8png.
 
 Definition include_lines (path ext : bytes) (tab : option Z) : result (list bytes) :=
   p <- resolve (path ++ ext) ;;
-  match target p with
-  | None => Err OtherError      (* isfile said yes but the file cannot be read: not modelled *)
-  | Some ls => Ok (if is_cart_ext ext then lines_for_tab ls tab else ls)
+  match target p ext with
+  | None => Err OtherError      (* isfile said yes but the file cannot be read / is not a cart: not modelled *)
+  | Some ls => Ok (map (yielded nl_kind) (if is_cart_ext ext then lines_for_tab ls tab else ls))
   end.
 
 Fixpoint process_includes (lines : list bytes) : result (list bytes) :=
@@ -199,3 +224,20 @@ Fixpoint process_includes (lines : list bytes) : result (list bytes) :=
     end
   end.
 End Splice.
+
+(* the file system as process_includes sees it *)
+Record fsview := mk_fsview {
+  fs_isfile : bytes -> bool;                     (* os.path.isfile *)
+  fs_read : bytes -> option bytes;               (* content of a file opened 'rb' *)
+  fs_cart : bytes -> option (list bytes)         (* P8Formatter / P8PNGFormatter .from_file(do_includes=False).lua.to_lines() *)
+}.
+
+(* what a target yields.  A cart (cart_kind as regenerated, include_cart_lines_kind): 0 = the chunks of the
+   reader's to_lines() as they are; 1 = the text lines of the joined code, io.BytesIO(b''.join(...)) *)
+Definition fs_target (cart_kind : Z) (fs : fsview) (p ext : bytes) : option (list bytes) :=
+  if is_cart_ext ext then
+    match fs_cart fs p with
+    | Some chunks => Some (if cart_kind =? 0 then chunks else file_lines (concat chunks))
+    | None => None
+    end
+  else match fs_read fs p with Some b => Some (file_lines b) | None => None end.
